@@ -882,5 +882,55 @@ theorem quiet_run (F : Oracle) (cfg : WbCfg) (cap : Nat) (evs : List Ev) (a : A)
     rw [e1, e2] at this
     exact this
 
+/-! ## the mailbox never holds more than its capacity -/
+
+theorem trySend_len (cap : Nat) (a : A) (m : Msg) (h : a.mailbox.length ≤ cap) :
+    (trySend cap a m).1.mailbox.length ≤ cap := by
+  rcases trySend_spec cap a m with ⟨_, ha, _, hl⟩ | ⟨_, ha, _⟩
+  · rw [ha]; simp; omega
+  · rw [ha]; exact h
+
+theorem bounded_step (F : Oracle) (cfg : WbCfg) (cap : Nat) (a : A) (ev : Ev) (h : a.mailbox.length ≤ cap) :
+    (step F cfg cap a ev).mailbox.length ≤ cap := by
+  have hsb : ∀ (b : A) (ds : List SDelta), b.mailbox.length ≤ cap → (sendBatch cap b ds).mailbox.length ≤ cap := by
+    intro b ds hb
+    unfold sendBatch
+    split
+    · exact hb
+    · have := trySend_len cap b (.pushDeltas ds) hb
+      split <;> rename_i heq <;> rw [heq] at this <;> exact this
+  cases ev with
+  | send e => simp only [step]; split <;> exact h
+  | drain => simp only [step]; split; exact hsb _ _ h; exact h
+  | bridgeTick => simp only [step]; split; exact trySend_len cap a _ h; exact h
+  | stopBridge => simp only [step]; split; exact hsb _ _ h; exact h
+  | reqPush e =>
+    simp only [step]
+    have := trySend_len cap { a with sent := a.sent ++ [e.1] } (.pushDelta e) h
+    split <;> rename_i heq <;> rw [heq] at this <;> exact this
+  | reqFlush => simp only [step]; exact trySend_len cap a _ h
+  | reqShutdown => simp only [step]; exact trySend_len cap a _ h
+  | advance ms => exact h
+  | actor sz =>
+    simp only [step]
+    split
+    · cases hm : a.mailbox with
+      | nil => simp only; rw [hm]; simp
+      | cons m rest =>
+        rw [hm] at h
+        simp only [List.length_cons] at h
+        have hr : rest.length ≤ cap := by omega
+        cases m with
+        | pushDelta e =>
+          cases hp : pushX cfg a.x e with
+          | mk x' ok =>
+            cases ok <;> simp only [handle, hp] <;>
+              (rw [(maybeFlush_spec F cfg sz _).2.2.1]; exact hr)
+        | pushDeltas ds => simp only [handle]; rw [(maybeFlush_spec F cfg sz _).2.2.1]; exact hr
+        | flush => simp only [handle]; rw [(doFlush_spec F sz _).2.2.1]; exact hr
+        | tick => simp only [handle]; rw [(maybeFlush_spec F cfg sz _).2.2.1]; exact hr
+        | shutdown => simp only [handle]; simp
+    · exact h
+
 end StreamActor
 end RedisVerif
